@@ -390,6 +390,7 @@ pub fn run(ctx: &Ctx) -> (Acc, String, bool) {
     for n in 1..=2 {
         small.extend(all_of_size(n, &mut cache).iter().map(|e| e.print()));
     }
+    let scripts: Vec<String> = crate::corpus::repo_scripts().into_iter().map(|x| x.1.trim_end().to_string()).collect();
     let fixed_pairs = (fixed.len() * fixed.len()) as u64;
     let fixed_triples: u64 = ctx.pick(200, (fixed.len() * fixed.len() * fixed.len()) as u64);
     let random_total: u64 = ctx.pick(40_000, 2_500_000);
@@ -405,9 +406,10 @@ pub fn run(ctx: &Ctx) -> (Acc, String, bool) {
         } else {
             let k = 2 + r.below(3);
             let ps: Vec<String> = (0..k)
-                .map(|_| match r.below(6) {
+                .map(|_| match r.below(7) {
                     0 => (*r.pick(&fixed)).to_string(),
                     1 => r.pick(&small).clone(),
+                    2 if !scripts.is_empty() => r.pick(&scripts).clone(),
                     _ => {
                         let depth = 1 + r.below(4);
                         rand_program(&mut r, depth, &cfg).print()
@@ -443,7 +445,7 @@ pub fn run(ctx: &Ctx) -> (Acc, String, bool) {
         }
     });
     let rule = format!(
-        "every ordered pair of {} hand-picked programs (conditionals, nested expressions, logic, loops, sequences, shared constants) and {} triples, in every build order; {} random sequences of 2..4 programs (generated core-language programs, small ASTs, the hand-picked ones) in every order (2..3 programs) or 4 random orders (4 programs); with four interleaving patterns of runs between builds; on both stores. Per build: stream compared, rebased, with the program built alone; earlier programs' instructions, jump entries and constants re-read after every build and run; every program finally run twice from its reported entry and compared (value, step count, staying inside its own instructions, stacks restored) with its run alone.",
+        "every ordered pair of {} hand-picked programs (conditionals, nested expressions, logic, loops, sequences, shared constants) and {} triples, in every build order; {} random sequences of 2..4 programs (generated core-language programs, small ASTs, the hand-picked ones, the repository's own tests/scripts) in every order (2..3 programs) or 4 random orders (4 programs); with four interleaving patterns of runs between builds; on both stores. Per build: stream compared, rebased, with the program built alone; earlier programs' instructions, jump entries and constants re-read after every build and run; every program finally run twice from its reported entry and compared (value, step count, staying inside its own instructions, stacks restored) with its run alone.",
         fixed.len(),
         fixed_triples,
         random_total
